@@ -183,7 +183,7 @@ class ReadDecoder:
         if token == -1:
             raise Exception("-1 token in readString")
 
-        if 2 < token < 236:
+        if 0 < token < 236:
             return self.getToken(token, data)
 
         if token == 0:
